@@ -595,3 +595,14 @@ PROPS["C19"]["level_text"] += " The values in force of an accepted configuration
 PROPS["C20"]["level_text"] += " For links in running text and for attachments the expected media type and address are derived from the JSON the world served, not read back from servitor's accessors."
 PROPS["C08"]["level_text"] += " At quiescence every thread page of the browser history is compared, position by position, with the reference views of its own opened item."
 PROPS["C02"]["level_text"] += " Every actor displayed with an identifier must be served under that id by the identifier's home."
+
+
+RULE_ADDENDA_4 = {
+    "C03": "Round 6: invalid status lines with one- and two-digit codes beginning with 3 or 2, carrying a Location.",
+    "C04": "Round 6: reference objects whose id carries a #fragment in the browsed worlds (the fragment is never sent).",
+    "C13": "Round 6: Indent prefixes containing $, % and backslash.",
+    "C16": "Round 6: terminal widths 1-12.",
+    "C17": "Round 6: media types with a comma after the subtype; timestamps at the zero instant of year 1 and around the epoch.",
+}
+for _k, _t in RULE_ADDENDA_4.items():
+    PROPS[_k]["rule"] += " " + _t
